@@ -103,6 +103,15 @@ def check_export(params):
     except Exception as e:  # noqa
         bad("to_tk-raises", "to_tk() raised %s: %s" % (type(e).__name__, str(e)[:150]))
         return out
+    snap = ref.snapshot(c)
+
+    def cmds(tk_circ):
+        return ([(x.op.type.name, tuple(x.op.params), [q.index for q in x.qubits], [b.index for b in x.bits]) for x in tk_circ.get_commands()],
+                dict(tk_circ.post_selection), tk_circ.scalar, ref.snapshot(tk_circ.post_processing))
+    t_again = c.to_tk()
+    if cmds(t_again) != cmds(t) or ref.snapshot(c) != snap:
+        bad("second-export", "exporting the same circuit again gives %r with %s (first %r with %s), or the circuit was changed"
+            % (t_again, t_again.post_selection, t, t.post_selection))
     closed, want = reference_distribution(c)
     n_out = len(closed.cod)
     # discopy's own mixed evaluation (what the statement compares with)
